@@ -155,6 +155,25 @@ func verifC06Exec(op string) string {
 
 		name := verifutil.UnHexS(f[3])
 		cnf := &conf.Conf{Paths: verifC06Confs(f[4], verifutil.UnHexS(f[2]))}
+		// the listing side (FindSegments = playback / cleaner / recordings API) for the same name
+		lst := "noconf"
+		if pc, _, err := conf.FindPathConf(cnf.Paths, name); err == nil {
+			segs, err := recordstore.FindSegments(pc, name, nil, nil)
+			switch {
+			case err != nil && strings.Contains(err.Error(), "invalid path name"):
+				lst = "invalid"
+			case err != nil:
+				lst = "none"
+			default:
+				var l []string
+				for _, s := range segs {
+					rel, _ := filepath.Rel(cwd, s.Fpath)
+					l = append(l, verifutil.HexS(rel))
+				}
+				sort.Strings(l)
+				lst = strings.Join(l, ",")
+			}
+		}
 		a := &API{Parent: verifC06Parent{c: cnf}}
 		gin.SetMode(gin.ReleaseMode)
 		rec := httptest.NewRecorder()
@@ -175,25 +194,6 @@ func verifC06Exec(op string) string {
 		g := "-"
 		if len(gone) > 0 {
 			g = strings.Join(gone, ",")
-		}
-		// the listing side (FindSegments = playback / cleaner / recordings API) for the same name
-		lst := "noconf"
-		if pc, _, err := conf.FindPathConf(cnf.Paths, name); err == nil {
-			segs, err := recordstore.FindSegments(pc, name, nil, nil)
-			switch {
-			case err != nil && strings.Contains(err.Error(), "invalid path name"):
-				lst = "invalid"
-			case err != nil:
-				lst = "none"
-			default:
-				var l []string
-				for _, s := range segs {
-					rel, _ := filepath.Rel(cwd, s.Fpath)
-					l = append(l, verifutil.HexS(rel))
-				}
-				sort.Strings(l)
-				lst = strings.Join(l, ",")
-			}
 		}
 		return fmt.Sprintf("%d %s %s", rec.Code, g, lst)
 	}
@@ -345,8 +345,14 @@ func verifC06Gen(r *verifutil.Rand, i int, thorough bool) []string {
 		if filepath.IsAbs(p) {
 			full = filepath.Clean(p)
 		}
-		if strings.HasPrefix(full, verifC06Root+"/") {
-			files = append(files, strings.TrimPrefix(full, verifC06Root+"/"))
+		if rel := strings.TrimPrefix(full, verifC06Root+"/"); strings.HasPrefix(full, verifC06Root+"/") {
+			dup := false
+			for _, x := range files {
+				dup = dup || x == rel
+			}
+			if !dup {
+				files = append(files, rel)
+			}
 		}
 	}
 	fh := make([]string, len(files))
@@ -377,7 +383,7 @@ func TestVerifC06(t *testing.T) {
 	wd, _ := os.Getwd()
 	defer os.Chdir(wd) //nolint:errcheck
 	verifutil.Main(t, &verifutil.Harness{
-		ID: "C06", Exec: verifC06Exec, Gen: verifC06Gen, Quick: 2500, Thorough: 60000,
+		ID: "C06", Exec: verifC06Exec, Gen: verifC06Gen, Quick: 1200, Thorough: 25000,
 		Class: func(op, impl string) string {
 			f := strings.Fields(op)
 			a := strings.Fields(impl)
